@@ -53,3 +53,20 @@ class ValetArrival(EVEvent):
         super().__init__(timestamp, ev)
         self.event_type = "Plugin"
         self.precedence = 10
+
+
+def minimal_pre_classes():
+    """Sorted / round-robin algorithms whose documented run_preprocessing hook is overridden by a user who only wants the EVSE
+    limits enforced (no estimator, no minimum rates, parent not called)."""
+    from acnportal.algorithms import SortedSchedulingAlgo, RoundRobin
+    from acnportal.algorithms.preprocessing import enforce_pilot_limit
+
+    class MinimalPreSorted(SortedSchedulingAlgo):
+        def run_preprocessing(self, active_sessions, infrastructure):
+            return enforce_pilot_limit(active_sessions, infrastructure)
+
+    class MinimalPreRR(RoundRobin):
+        def run_preprocessing(self, active_sessions, infrastructure):
+            return enforce_pilot_limit(active_sessions, infrastructure)
+
+    return MinimalPreSorted, MinimalPreRR
